@@ -80,9 +80,16 @@ class Creators:
         self._records[gfa_line.record_type] = {}
       self._records[gfa_line.record_type][id(gfa_line)] = gfa_line
 
+  @staticmethod
+  def __record_type_of_string(string):
+    """The record type is the first field (for comments: the # character)"""
+    if string[0] == "#":
+      return "#"
+    return string.split(gfapy.Line.SEPARATOR, 1)[0]
+
   def __add_line_unknown_version(self, gfa_line):
     if isinstance(gfa_line, str):
-      rt = gfa_line[0]
+      rt = Creators.__record_type_of_string(gfa_line)
     elif isinstance(gfa_line, gfapy.Line):
       rt = gfa_line.record_type
     else:
@@ -161,7 +168,7 @@ class Creators:
 
   def __add_line_GFA1(self, gfa_line):
     if isinstance(gfa_line, str):
-      if gfa_line[0] == "S":
+      if Creators.__record_type_of_string(gfa_line) == "S":
         gfa_line = gfapy.Line(gfa_line, vlevel=self._vlevel,
             dialect=self._dialect)
       else:
@@ -195,7 +202,7 @@ class Creators:
 
   def __add_line_GFA2(self, gfa_line):
     if isinstance(gfa_line, str):
-      if gfa_line[0] == "S":
+      if Creators.__record_type_of_string(gfa_line) == "S":
         gfa_line = gfapy.Line(gfa_line, vlevel=self._vlevel,
             dialect=self._dialect)
       else:
